@@ -98,6 +98,19 @@ type Ty struct {
 // ---------------------------------------------------------------- the independent canonical printer
 
 // c18Esc is ClickHouse's escaping of a string body (writeAnyEscapedString with quote character ').
+// c18Combo: one pool entry, or two or three glued together — so that an invalid UTF-8 byte, a quote, a backslash and a
+// control character meet in one string (an escaper that is right for each alone may still be wrong for the mix).
+func c18Combo(r *Rng, pool []string) string {
+	s := pick(r, pool)
+	if r.Chance(1, 3) {
+		s += pick(r, pool)
+		if r.Chance(1, 3) {
+			s += pick(r, pool)
+		}
+	}
+	return s
+}
+
 func c18Esc(s string) string {
 	var sb strings.Builder
 	for i := 0; i < len(s); i++ {
@@ -423,18 +436,18 @@ func (g *tyGen) buildWith(c tyCtor, depth int, pos tyPos, forceChild tyCtor, chi
 	case kFixedString:
 		return &Ty{Ctor: c, Words: head("FixedString"), Args: []TyArg{{Kind: aNum, U: g.number(1<<63 - 1)}}}
 	case kDateTime:
-		return &Ty{Ctor: c, Words: head("DateTime"), Args: []TyArg{{Kind: aStr, S: pick(r, c18TimeZones)}}}
+		return &Ty{Ctor: c, Words: head("DateTime"), Args: []TyArg{{Kind: aStr, S: c18Combo(r, c18TimeZones)}}}
 	case kDateTime64:
 		t := &Ty{Ctor: c, Words: head("DateTime64"), Args: []TyArg{{Kind: aNum, U: uint64(r.Intn(10))}}}
 		if r.Chance(2, 3) {
-			t.Args = append(t.Args, TyArg{Kind: aStr, S: pick(r, c18TimeZones)})
+			t.Args = append(t.Args, TyArg{Kind: aStr, S: c18Combo(r, c18TimeZones)})
 		}
 		return t
 	case kEnum:
 		n := 1 + r.Intn(5)
 		t := &Ty{Ctor: c, Words: head(pick(r, []string{"Enum8", "Enum16", "Enum"}))}
 		for i := 0; i < n; i++ {
-			a := TyArg{Kind: aEnum, S: pick(r, c18EnumNames)}
+			a := TyArg{Kind: aEnum, S: c18Combo(r, c18EnumNames)}
 			switch r.Intn(8) {
 			case 0:
 				a.U = r.Next() % (1 << 63)
@@ -805,6 +818,84 @@ func runC18(w *W) {
 		}
 		c18Case(w, r, idx, t, hz, known, desc, useModel)
 	}
+	// many types in ONE Parse call, wide types and deep types: what a type denotes must not depend on how many types were
+	// parsed before it by the same parser (counters, depth guards, pools) nor on its width or depth
+	{
+		leafs := []string{"Int32", "String", "Nullable(UInt8)", "Array(String)", "DateTime('UTC')", "Decimal(10, 2)", "Tuple(a Int8, b String)", "Map(String, UInt8)", "Enum8('a' = 1)", "LowCardinality(String)", "FixedString(3)", "Float64", "Date"}
+		bigCase := func(desc, script string, parts []string) {
+			idx, mine := w.Case()
+			if !mine {
+				return
+			}
+			in := []byte(script)
+			w.Begin(idx, in, desc)
+			w.Eval(in, true)
+			w.Count(desc)
+			obs := safeParse(in, 0)
+			if obs.Panicked || obs.Err != nil || len(obs.Stmts) != len(parts) {
+				w.Report(Finding{Kind: "type", Key: "type@" + desc + "@rejected", Input: fmt.Sprintf("%q", trunc(script, 300)), InputHex: hexs(in),
+					Detail: fmt.Sprintf("every statement parses alone; together (%d statements, %d bytes): err=%v panicked=%v got %d statements", len(parts), len(in), trunc(fmt.Sprint(obs.Err), 300), obs.Panicked, len(obs.Stmts))})
+				return
+			}
+			for i := 0; i < len(parts); i += 1 + len(parts)/40 {
+				alone := safeParse([]byte(parts[i]), 0)
+				if alone.Err != nil || alone.Panicked || len(alone.Stmts) != 1 {
+					continue
+				}
+				if a, b := safeExplain(alone.Stmts[0]).Out, safeExplain(obs.Stmts[i]).Out; a != b {
+					w.Report(Finding{Kind: "type", Key: "type@" + desc + "@differs", Input: fmt.Sprintf("%q", trunc(script, 300)), InputHex: hexs(in),
+						Detail: fmt.Sprintf("statement %d (%s) explains differently inside the script: %s", i, parts[i], firstLineDiff(a, b))})
+					return
+				}
+			}
+		}
+		for _, fn := range []bool{true, false} {
+			var parts []string
+			for i := 0; i < 1150; i++ {
+				t := leafs[i%len(leafs)]
+				if fn {
+					parts = append(parts, "SELECT CAST(x AS "+t+")")
+				} else {
+					parts = append(parts, "SELECT x::"+t+", y")
+				}
+			}
+			bigCase(fmt.Sprintf("script-of-casts:%v", fn), strings.Join(parts, ";\n"), parts)
+		}
+		for _, width := range []int{300, 1001, 1200} {
+			elems := make([]string, width)
+			for i := range elems {
+				elems[i] = leafs[i%len(leafs)]
+			}
+			one := "SELECT CAST(x AS Tuple(" + strings.Join(elems, ", ") + ")), y::Tuple(" + strings.Join(elems, ", ") + ")"
+			want := "Tuple(" + strings.Join(elems, ", ") + ")"
+			idx, mine := w.Case()
+			if mine {
+				in := []byte(one)
+				w.Begin(idx, in, "wide-tuple")
+				w.Eval(in, true)
+				obs := safeParse(in, 0)
+				out := ""
+				if !obs.Panicked && obs.Err == nil && len(obs.Stmts) == 1 {
+					out = safeExplain(obs.Stmts[0]).Out
+				}
+				// both positions must show the canonical text (quotes of string arguments escaped as elsewhere)
+				wantShown := strings.ReplaceAll(want, "'", "\\\\\\'")
+				if strings.Count(out, "Literal \\'"+wantShown+"\\'") != 2 {
+					w.Report(Finding{Kind: "type", Key: "type@wide-tuple", Input: fmt.Sprintf("%q", trunc(one, 200)), InputHex: hexs(in),
+						Detail: fmt.Sprintf("a Tuple of %d elements in both cast positions: err=%v; the canonical text does not appear twice in\n%s", width, trunc(fmt.Sprint(obs.Err), 300), trunc(out, 600))})
+				}
+			}
+		}
+		for _, depth := range []int{100, 400, 900} {
+			t := "Int8"
+			for i := 0; i < depth; i++ {
+				t = []string{"Array(", "Nullable(", "Tuple("}[i%3] + t + ")"
+			}
+			parts := []string{"SELECT CAST(x AS " + t + ")", "SELECT x::" + t, "SELECT CAST(x AS Int8)"}
+			bigCase(fmt.Sprintf("deep-type:%d", depth), strings.Join(parts, "; "), parts)
+		}
+	}
+
 	// the measured parent/child matrix of the whole run (every shard generates every case, so this is the same in all shards)
 	mx := map[string]map[string]int{}
 	missing := []string{}
